@@ -9,7 +9,10 @@ first-order decision code:
                                                         -> verdict_chain : Z^6 -> label * Z
  * run_test: the if/elif chain that classifies a finished path (panic / fail flag -> submit,
    stuck -> synchronous solve, no error -> count as normal) -> classify : bool^4 -> action,
-   and the guard under which a stuck path is counted     -> stuck_counted : bool -> bool
+   the guard under which a stuck path is counted         -> stuck_counted : bool -> bool,
+   and what an exception of that synchronous solve does (bare call: it leaves run_test;
+   try / except ShutdownError: break / except Exception: from_error output)
+                                                        -> stuck_shutdown_escapes, stuck_exception_escapes : bool
  * run_tests: the result appended when run_test raises   -> raised_label, raised_exitcode
  * _main: num_passed / num_failed / total_* / the no-tests exit / the final exit expression
                                                         -> test_passed, num_failed_of, no_tests,
@@ -102,6 +105,56 @@ def _walk_stmts(fn):
                 yield h.body
 
 
+STUCK_CALL = "solver_output = solve_low_level(path_ctx)"
+
+
+def _diagnostic(st, exc_name=None):
+    """statements of an except body that only print / log"""
+    if isinstance(st, ast.Expr) and isinstance(st.value, ast.Call) and isinstance(st.value.func, ast.Name) and st.value.func.id in ("print", "error", "warn", "debug"):
+        return True
+    if isinstance(st, ast.If) and not st.orelse and all(_diagnostic(x, exc_name) for x in st.body):
+        t = ast.unparse(st.test)
+        return t == "args.debug" or (exc_name is not None and t == f"not is_benign_solving_error({exc_name})")
+    return False
+
+
+def _stuck_solve(body, result_if):
+    """The synchronous solve of a stuck path.  Either the bare call (any exception leaves run_test), or
+         try: solver_output = solve_low_level(path_ctx)
+         except ShutdownError: <diagnostics>; break
+         except Exception as e: <diagnostics>; solver_output = SolverOutput.from_error(e, ...)
+       -> (a ShutdownError escapes, any other exception escapes).  Anything else: fail closed."""
+    bare = [s for s in body if _same_stmt(s, STUCK_CALL)]
+    tries = [s for s in body if isinstance(s, ast.Try)]
+    if len(bare) == 1 and not tries:
+        if body.index(bare[0]) > body.index(result_if):
+            raise TranslateError("stuck arm: the solver is called after its result is examined")
+        return True, True
+    if bare or len(tries) != 1:
+        raise TranslateError("stuck arm: expected `solver_output = solve_low_level(path_ctx)`, bare or as the body of one try statement")
+    t = tries[0]
+    if len(t.body) != 1 or not _same_stmt(t.body[0], STUCK_CALL) or t.orelse or t.finalbody:
+        raise TranslateError("stuck arm: the try must guard exactly `solver_output = solve_low_level(path_ctx)` (no else / finally)")
+    if body.index(t) > body.index(result_if):
+        raise TranslateError("stuck arm: the solver is called after its result is examined")
+    kinds = [ast.unparse(h.type) if h.type is not None else None for h in t.handlers]
+    if kinds != ["ShutdownError", "Exception"]:
+        raise TranslateError(f"stuck arm: expected the handlers [ShutdownError, Exception] in this order, found {kinds}")
+    h0, h1 = t.handlers
+    if not h0.body or not isinstance(h0.body[-1], ast.Break) or not all(_diagnostic(x) for x in h0.body[:-1]):
+        raise TranslateError("stuck arm: the ShutdownError handler must be <diagnostics>; break")
+    if h1.name is None or not h1.body:
+        raise TranslateError("stuck arm: the Exception handler must bind the exception")
+    last = h1.body[-1]
+    ok = (isinstance(last, ast.Assign) and len(last.targets) == 1 and isinstance(last.targets[0], ast.Name) and last.targets[0].id == "solver_output" and isinstance(last.value, ast.Call)
+          and ast.unparse(last.value.func) == "SolverOutput.from_error" and len(last.value.args) == 1 and isinstance(last.value.args[0], ast.Name) and last.value.args[0].id == h1.name
+          and {k.arg for k in last.value.keywords} <= {"path_id", "query_file"}
+          and all(ast.unparse(k.value) == "path_id" for k in last.value.keywords if k.arg == "path_id"))
+    if not ok or not all(_diagnostic(x, h1.name) for x in h1.body[:-1]):
+        raise TranslateError("stuck arm: the Exception handler must be <diagnostics>; solver_output = SolverOutput.from_error(<the exception>, path_id=path_id, query_file=...)")
+    return False, False
+
+
 def _classification(fn):
     """The if/elif chain inside the path loop of run_test."""
     chain = None
@@ -148,6 +201,7 @@ def _classification(fn):
     arms = []
     cur = chain
     stuck_guard = None
+    stuck_escapes = None
     while True:
         t = Atom().visit(ast.parse(ast.unparse(cur.test), mode="eval").body)
         a = action(cur.body)
@@ -157,8 +211,7 @@ def _classification(fn):
             found = [s for s in cur.body if isinstance(s, ast.If)]
             if len(found) != 1 or not any("stuck.append(" in ast.unparse(x) for x in found[0].body) or found[0].orelse:
                 raise TranslateError("stuck arm: expected exactly one `if ...: stuck.append(...)`")
-            if not any(_same_stmt(s, "solver_output = solve_low_level(path_ctx)") for s in cur.body):
-                raise TranslateError("stuck arm: expected `solver_output = solve_low_level(path_ctx)`")
+            stuck_escapes = _stuck_solve(cur.body, found[0])
             g = found[0].test
             if _same(g, "solver_output.result != unsat"):
                 stuck_guard = "(negb is_unsat)"
@@ -174,7 +227,12 @@ def _classification(fn):
         break
     if stuck_guard is None:
         raise TranslateError("classification chain: no stuck arm")
-    return arms, stuck_guard
+    if not stuck_escapes[0]:
+        # `break` in the ShutdownError handler must end the path loop itself
+        loops = [n for n in ast.walk(fn) if isinstance(n, ast.For) and _same(n.iter, "enumerate(exs)")]
+        if len(loops) != 1 or not any(st is chain for st in loops[0].body) or loops[0].orelse:
+            raise TranslateError("stuck arm: the classification chain is not a direct statement of the `for ... in enumerate(exs)` loop (what would `break` leave?)")
+    return arms, stuck_guard, stuck_escapes
 
 
 def translate(src_text):
@@ -247,7 +305,7 @@ def translate(src_text):
         text = f"if {tr.tr(test).as_bool()} then ({lab}, EX_{ex})\n  else {text}"
 
     # ---- classification chain
-    arms, stuck_guard = _classification(fn)
+    arms, stuck_guard, stuck_escapes = _classification(fn)
     ctr = Translator(bool_names=["panic", "failflag", "stuck", "has_error"])
     ctext = "ANone"
     for test, _, act in reversed(arms):
@@ -359,6 +417,11 @@ def translate(src_text):
         "  " + ctext + ".",
         "(* a stuck path is appended to `stuck` under this guard on its solver result *)",
         f"Definition stuck_counted (is_unsat : bool) : bool := {stuck_guard}.",
+        "(* the synchronous solve of a stuck path: does a ShutdownError (executor shut down by --early-exit) / any other",
+        "   exception of solve_low_level leave run_test?  If not: the ShutdownError handler breaks out of the path loop, the",
+        "   Exception handler continues with SolverOutput.from_error (class from_error_class of Gen/GenSolveDispatch.v) *)",
+        f"Definition stuck_shutdown_escapes : bool := {'true' if stuck_escapes[0] else 'false'}.",
+        f"Definition stuck_exception_escapes : bool := {'true' if stuck_escapes[1] else 'false'}.",
         "",
         "(* run_tests: a test whose run_test raised *)",
         f"Definition raised_label : label := {raised_label}.",
@@ -379,6 +442,7 @@ def translate(src_text):
         "chain_src": ast.unparse(chain_stmt),
         "class_arms": [(src, act) for _, src, act in arms],
         "stuck_guard": stuck_guard,
+        "stuck_escapes": stuck_escapes,
         "raised": (raised_label, raised_ex),
     }
     return "\n".join(lines), info
